@@ -312,6 +312,48 @@ func init() {
 			e.emit("rs %s nil", h)
 			e.emit("usc %s -", h)
 		})
+		// every exported function on boundary / hostile inputs and buffer states
+		for _, ex := range []string{"347", "348", "349", "350", "-347", "-348", "-349", "-350", "308", "309", "-324", "-325", "22", "23", "37", "38", "-22", "-23", "400", "-400", "99999", "100000"} {
+			for _, m := range []string{"1", "9", "12", "1.5", "0.00000000001", "9999999999999999999", "18446744073709551616", "123456789012345678901234567890", "0"} {
+				for _, sg := range []string{"", "-"} {
+					lit := sg + m + "e" + ex
+					e.emit("f64 %s", hs([]byte(lit)))
+					e.emit("rv %s", hs([]byte("["+lit+"]")))
+					e.emit("dec f64 %s 0", hs([]byte(lit)))
+				}
+			}
+		}
+		for _, n := range []int{300, 366, 367, 368, 400, 799, 800, 801, 1000} {
+			e.emit("f64 %s", hs([]byte(strings.Repeat("7", n))))
+			e.emit("f64 %s", hs([]byte("0."+strings.Repeat("0", n)+"7")))
+			e.emit("f64 %s", hs([]byte(strings.Repeat("1", n)+"e-"+fmt.Sprint(n))))
+		}
+		compatIn := []string{"a", "\xff", "é", "😀", "\xff\xfe\xfd", "abc\xffdef", "", "\xf0\x9f", "\xed\xa0\x80"}
+		for _, s := range compatIn {
+			s = strings.NewReplacer("\\xff", "\xff", "\\xfe", "\xfe", "\\xfd", "\xfd", "\\xf0", "\xf0", "\\x9f", "\x9f", "\\xed", "\xed", "\\xa0", "\xa0", "\\x80", "\x80").Replace(s)
+			for ln := 0; ln <= 12; ln++ {
+				for extra := 0; extra <= 6; extra++ {
+					e.emit("compatb %s %s %d", hs([]byte(s)), hs([]byte(strings.Repeat("b", ln))), extra)
+					if ln%4 == 0 {
+						e.emit("frame rsb %s %s %d", hs([]byte(`"`+s+`\n"`)), hs([]byte(strings.Repeat("b", ln))), extra)
+						e.emit("frame usc %s %s %d", hs([]byte(s+`\u00e9`)), hs([]byte(strings.Repeat("b", ln))), extra)
+					}
+				}
+			}
+			e.emit("compat %s", hs([]byte(s)))
+		}
+		for i := 0; i < docs/3; i++ {
+			d := genDoc(r)
+			if r.chance(1, 2) {
+				d = mutate(r, d)
+			}
+			h := hs(d)
+			e.emit("%s %s", r.pick([]string{"rv", "ro", "ra", "rvc"}), h)
+			e.emit("dec %s %s 1", r.pick([]string{"i64", "i32", "int", "u64", "u32", "uint", "f64"}), h)
+			e.emit("dec bool %s true", h)
+			e.emit("dec str %s - %s", h, r.pick([]string{"nil", "-", hs([]byte("zz"))}))
+			e.emit("compose %s %d mix", h, r.intn(50))
+		}
 		// nesting far beyond the limit, every mixture; long single tokens (moderate sizes so
 		// that the model side can follow; the huge ones are in the impl-only extra)
 		for _, n := range []int{10001, 20000} {
